@@ -378,6 +378,35 @@ pub fn gen_c19(seed: u64, thorough: bool) {
             println!("{}", line);
         }
     }
+    // ---- the `Engine::load` route with files of the SAME NAME in different directories (speaker_a/voice.htsvoice,
+    // speaker_b/voice.htsvoice) whose metadata differ in the sampling rate or the frame period: they are different voices and
+    // must be refused (seeded change C19k: parsed voices cached by file name, so the second file was never read)
+    for t in 0..(if thorough { 20 } else { 3 }) {
+        let cfg = VoiceCfg { nstream: rng.range(2, 3), stage: 0, nstate: rng.range(1, 3), max_leaves: 3 };
+        let a = VoiceSpec::random(&mut rng, &cfg, &pool);
+        let mut b = a.clone();
+        if t % 2 == 0 { b.sr = a.sr + 100; } else { b.fp = a.fp + 1; }
+        let (da, db) = (format!("{}/voices/c19k_{}_{}_a", work_dir(), std::process::id(), t), format!("{}/voices/c19k_{}_{}_b", work_dir(), std::process::id(), t));
+        let _ = std::fs::create_dir_all(&da);
+        let _ = std::fs::create_dir_all(&db);
+        let (pa, pb) = (format!("{}/voice.htsvoice", da), format!("{}/voice.htsvoice", db));
+        a.write(&pa);
+        b.write(&pb);
+        if let (Ok(va), Ok(vb)) = (load_htsvoice_file(&pa), load_htsvoice_file(&pb)) {
+            for (paths, voices, label) in [(vec![pa.clone(), pb.clone()], vec![va.clone(), vb.clone()], "same-file-name-other-directory"),
+                                          (vec![pa.clone(), pa.clone()], vec![va.clone(), va.clone()], "none")] {
+                let mut line = String::from("vset");
+                push_u(&mut line, 2);
+                for v in &voices { push_meta(&mut line, v); }
+                let r = catch(std::panic::AssertUnwindSafe(|| Engine::load(&paths).map(|_| ())));
+                push_s(&mut line, match r { Ok(Ok(())) => "ok", Ok(Err(_)) => "err:metadata", Err(_) => "err:other" });
+                push_s(&mut line, label);
+                println!("{}", line);
+            }
+        }
+        let _ = std::fs::remove_dir_all(&da);
+        let _ = std::fs::remove_dir_all(&db);
+    }
     // ---- weight histories followed by synthesis
     let nhist = if thorough { 3000 } else { 300 };
     let mut cached: Option<(Vec<Arc<Voice>>, usize)> = None;
